@@ -60,7 +60,7 @@ def node(spec, shared=None):
             return spec["id"]
         if spec.get("sub"):
             return item_class()(spec["id"], b)
-        if spec.get("dt"):
+        if spec.get("dt") and not (spec["dt"] == "bool" and b != (0, 1)):     # (a spec edited to other bounds drops the bool declaration)
             # declared with the documented dtype argument next to (or instead of) explicit bounds
             if spec["dt"] == "int" and b == (-32768, 32767) and spec.get("dt_only"):
                 return puan.variable(spec["id"], dtype="int")
